@@ -34,6 +34,11 @@ enum Kind : uint8_t {
     SQRT, EXP, LOG, LOG10, SIN, COS, TAN, ASIN, ACOS, ATAN, SINH, COSH, ASINH, ACOSH, ABS,
     ATAN2_EE, ATAN2_ES, ATAN2_SE,
     MIN_EE, MIN_ES, MIN_SE, MAX_EE, MAX_ES, MAX_SE,
+    // aliasing forms (one operand, used twice as THE SAME OBJECT):
+    ADDEQ_SELF, SUBEQ_SELF, MULEQ_SELF, DIVEQ_SELF,      // r += r, r -= r, r *= r, r /= r
+    ADD_SELF, SUB_SELF, MUL_SELF, DIV_SELF,              // a + a, a - a, a * a, a / a   (both operands one object)
+    POW_SELF, ATAN2_SELF,                                // pow(a, a), atan2(a, a)
+    ADDEQ_OWNV, SUBEQ_OWNV, MULEQ_OWNV, DIVEQ_OWNV,      // r += r.value() ...: scalar rhs is a const reference into r's own storage
     NKINDS
 };
 enum Arity : uint8_t { A_LEAF, A_U, A_ES, A_SE, A_EE };
@@ -55,6 +60,10 @@ inline const KindInfo& info(int k) {
         {"atan2_ee", A_EE, LEAF}, {"atan2_es", A_ES, ATAN2_EE}, {"atan2_se", A_SE, ATAN2_EE},
         {"min_ee", A_EE, LEAF}, {"min_es", A_ES, MIN_EE}, {"min_se", A_SE, MIN_EE},
         {"max_ee", A_EE, LEAF}, {"max_es", A_ES, MAX_EE}, {"max_se", A_SE, MAX_EE},
+        {"addeq_self", A_U, LEAF}, {"subeq_self", A_U, LEAF}, {"muleq_self", A_U, LEAF}, {"diveq_self", A_U, LEAF},
+        {"add_self", A_U, LEAF}, {"sub_self", A_U, LEAF}, {"mul_self", A_U, LEAF}, {"div_self", A_U, LEAF},
+        {"pow_self", A_U, LEAF}, {"atan2_self", A_U, LEAF},
+        {"addeq_ownv", A_U, LEAF}, {"subeq_ownv", A_U, LEAF}, {"muleq_ownv", A_U, LEAF}, {"diveq_ownv", A_U, LEAF},
     };
     return t[k];
 }
@@ -312,6 +321,17 @@ inline Skip ref_eval(const Tree& t, int idx, int n, Dual& o) {
     case ATAN2_EE: case ATAN2_ES: case ATAN2_SE: s = ref_atan2(a, b, o); break;
     case MIN_EE: case MIN_ES: case MIN_SE: s = ref_minmax(true, a, b, o); break;
     case MAX_EE: case MAX_ES: case MAX_SE: s = ref_minmax(false, a, b, o); break;
+    // aliasing forms: the mathematics does not know about object identity
+    case ADDEQ_SELF: case ADD_SELF: s = ref_add(a, a, 1.0, o); break;          // 2x
+    case SUBEQ_SELF: case SUB_SELF: s = ref_add(a, a, -1.0, o); break;         // 0, zero partials
+    case MULEQ_SELF: case MUL_SELF: s = ref_mul(a, a, o); break;               // x^2, 2 x x'
+    case DIVEQ_SELF: case DIV_SELF: s = ref_div(a, a, o); break;               // 1, zero partials
+    case POW_SELF: s = ref_pow(a, a, o); break;
+    case ATAN2_SELF: s = ref_atan2(a, a, o); break;
+    case ADDEQ_OWNV: s = ref_add(a, constant(a.v, a.d.size()), 1.0, o); break; // scalar = the value, a constant
+    case SUBEQ_OWNV: s = ref_add(a, constant(a.v, a.d.size()), -1.0, o); break;
+    case MULEQ_OWNV: s = ref_mul(a, constant(a.v, a.d.size()), o); break;      // x^2, x x'
+    case DIVEQ_OWNV: s = ref_div(a, constant(a.v, a.d.size()), o); break;      // 1, x'/x
     default: s = ref_unary(x.kind, a, o);
     }
     if (s != SK_OK) return s;
